@@ -1927,3 +1927,51 @@ def nested_fn(interp, mod, outer, name, closure_vars=None):
             interp.stmt(s, env, mod)
             return env['v'][name]
     raise AnalysisError('anchor nested function %s.%s.%s not found' % (mod, outer, name))
+
+
+class _Found(Exception):
+    def __init__(self, env):
+        self.env = env
+
+
+def nested_fn_auto(interp, mod, outer, name, outer_args, overrides=None):
+    """Closure for a def nested in module-level function `outer`, obtained by INTERPRETING the enclosing
+    function's own statements (with the given arguments) up to the nested def -- so the closure sees
+    whatever locals the current source defines before it (no frozen list of closure variables).
+    `overrides` replaces selected locals afterwards (e.g. an expensive model constant by a symbol);
+    overriding a name the source no longer defines is ignored."""
+    o = fn(mod, outer)
+    node = o.node
+    params = [x.arg for x in node.args.posonlyargs + node.args.args]
+    env = {'v': {}, 'p': None}
+    defaults = node.args.defaults
+    for p, d in zip(params[len(params) - len(defaults):], defaults):
+        env['v'][p] = interp.ev(d, {'v': {}, 'p': None}, mod)
+    for p in params:
+        if p in outer_args:
+            env['v'][p] = outer_args[p]
+    missing = [p for p in params if p not in env['v']]
+    if missing:
+        raise AnalysisError('nested_fn_auto %s.%s: no value for parameter(s) %s' % (mod, outer, missing))
+
+    def walk(stmts):
+        for s in stmts:
+            if isinstance(s, ast.FunctionDef) and s.name == name:
+                interp.stmt(s, env, mod)
+                raise _Found(env)
+            if isinstance(s, (ast.If, ast.For, ast.With, ast.While)) and any(
+                    isinstance(x, ast.FunctionDef) and x.name == name for x in ast.walk(s)):
+                raise AnalysisError('nested function %s.%s.%s is defined under control flow' % (mod, outer, name))
+            interp.stmt(s, env, mod)
+
+    try:
+        try:
+            walk(node.body)
+        except Ret:
+            raise AnalysisError('%s.%s returned before defining %s with the given arguments' % (mod, outer, name))
+    except _Found as f:
+        for k, v in (overrides or {}).items():
+            if k in f.env['v']:
+                f.env['v'][k] = v
+        return f.env['v'][name], f.env['v']
+    raise AnalysisError('anchor nested function %s.%s.%s not found' % (mod, outer, name))
